@@ -5,3 +5,4 @@ import OFModel.Zmq.Sender
 import OFModel.Codec
 import OFModel.Redact
 import OFModel.Frame
+import OFModel.Resize
